@@ -1,6 +1,9 @@
 #pragma once
 #include "frame.h"
 #include "value.h"
+#ifdef SQFVM_RUNTIME_VERIF
+#include "verif_hooks.h"
+#endif // SQFVM_RUNTIME_VERIF
 
 #include <vector>
 #include <chrono>
@@ -48,7 +51,11 @@ namespace sqf::runtime
         template<class _Rep, class _Period>
         void suspend(std::chrono::duration<_Rep, _Period> duration)
         {
+#ifdef SQFVM_RUNTIME_VERIF
+            m_wakeup_timestamp = sqf::verif::now() + duration;
+#else
             m_wakeup_timestamp = std::chrono::system_clock::now() + duration;
+#endif // SQFVM_RUNTIME_VERIF
             m_suspended = true;
         }
         void unsuspend() { m_suspended = false; }
